@@ -343,7 +343,7 @@ func (c *poolComp) Exec(t []string) (extra []string, out string, eff bool) {
 	t0 := time.Now().UnixNano()
 	extra, out, eff = c.exec(t)
 	t1 := time.Now().UnixNano()
-	if c.sensitive(t0, t1, int64(store.ExpireInterval)) || c.sensitive(t0, t1, int64(store.ExpireNonce)) {
+	if t[0] != "sleep" && (c.sensitive(t0, t1, int64(store.ExpireInterval)) || c.sensitive(t0, t1, int64(store.ExpireNonce))) {
 		c.poisoned = true
 		return []string{"#skipped"}, "noop", false
 	}
@@ -689,6 +689,10 @@ func (c *poolComp) exec(t []string) (extra []string, out string, eff bool) {
 			after.Set(p)
 		}
 		return x, "ok paid=" + after.Sub(after, before).String(), true
+	case "sleep":
+		ms, _ := strconv.Atoi(t[1])
+		time.Sleep(time.Duration(ms) * time.Millisecond)
+		return nil, "ok", false
 	case "dump":
 		t0 := time.Now().UnixNano()
 		return []string{"now=" + TTok(t0)}, c.dump(), false
